@@ -151,6 +151,7 @@ def gen_assignments(rng, tier):
             dsts = [d if not (d[0] == 1 and d[1] in (5, 6) and d[2] == 5) else NONE for d in dsts]
         out.append(scmd(env, cc, args, dsts, pfp=pfp, avx=1 if rng.random() < 0.3 else 0, lsize=512))
     out += gen_other_archs(rng, tier)
+    out += gen_gp_fragment(rng, tier)
     # 6. all 14 free GP registers are destinations (no scratch register left) with stack sources and stack destinations
     for _ in range(40 if tier == "quick" else 600):
         na = rng.randrange(7, 15)
@@ -161,6 +162,37 @@ def gen_assignments(rng, tier):
             if pool and rng.random() < 0.9: dsts.append(dreg(gp_rt_for(t), pool.pop(), t))
             else: dsts.append(dstack(8 * i, t))
         out.append(scmd(sysv, 0, args, dsts, lsize=512))
+    return out
+
+
+def gen_gp_fragment(rng, tier):
+    """pure register-to-register GP assignments (the fragment the solver MODEL covers): random partial permutations with chains, cycles of every
+    length, self moves, random integer type pairs; x86-64 (xchg) and AArch64 (scratch register)"""
+    out = []
+    n = 1500 if tier == "quick" else 60000
+    for _ in range(n):
+        if rng.random() < 0.6:
+            env, srcs, pool = (1, 0, 0), [7, 6, 2, 1, 8, 9], X64_GP_FREE
+        else:
+            env, srcs, pool = (2, 0, 0) if rng.random() < 0.5 else (2, 2, 2), list(range(8)), list(range(0, 18)) + list(range(19, 29))
+        k = rng.randrange(1, len(srcs) + 1)
+        wide = rng.random() < 0.4
+        args = [rng.choice([40, 41]) if wide else rng.choice([34, 35, 36, 37, 38, 39, 40, 41]) for _i in range(k)]
+        mode = rng.random()
+        if mode < 0.55:          # destinations among the source registers: permutations / cycles / chains
+            cand = srcs[:k] if rng.random() < 0.6 else srcs[:min(len(srcs), k + 1)]
+        elif mode < 0.8:
+            cand = srcs[:k] + rng.sample([r for r in pool if r not in srcs[:k]], 2)
+        else:
+            cand = list(pool)
+        cand = list(cand); rng.shuffle(cand)
+        dsts = []
+        for t in args:
+            if not cand or rng.random() < 0.1:
+                dsts.append(NONE); continue
+            dt = t if rng.random() < 0.6 else rng.choice([34, 35, 36, 37, 38, 39, 40, 41])
+            dsts.append(dreg(gp_rt_for(dt), cand.pop(), dt))
+        out.append(scmd(env, 0, args, dsts))
     return out
 
 
